@@ -30,6 +30,9 @@ RULE = ("(i) molecules as for C05 (FG-rich fragments, 1-14 heavy atoms, all id s
         "B,A,B, every time on a fresh FGQuery built through a random public construction path (FGQuery(config=list), FGQuery(mapper=..., config=list), "
         "FGQuery(config=FGConfigProvider(list)) with and without an explicit mapper): every answer must equal the model's answer for that "
         "(configuration, molecule) alone; the same sequences are repeated in fresh interpreters under the other hash seeds. "
+        "(iv) edit-in-place sequences: one FGQuery object and one graph object: get(g), the caller edits g IN PLACE (symbol or bond-order change keeping "
+        "the node and edge counts, atom / bond added or removed), get(g) again, also with a second object h of the same new contents asked in between: every "
+        "answer must equal the model's answer for the contents at that moment, and the last one the answer of a fresh FGQuery. "
         "(iii) colliding symbols: pairs of molecules built directly whose neighbour lists around a hetero "
         "centre differ (a two-letter element such as Sn, Si, Co, Cs, No, Os, Sc, Hf, In, Cn, Nb, Pb vs the two one-letter atoms) but read the same when "
         "concatenated, asked one after the other (both orders, and m1,m2,m1) on ONE FGQuery object: the last answer must equal the model's answer for that "
@@ -58,6 +61,9 @@ def generate(seed, tier, ncases=None):
     # concatenated (['Sn', ...] vs ['S', 'N', ...]): any per-object memo keyed by joined symbols would answer from a stale entry
     for i in range(max(2, n // 6)):
         cases.extend(gen_collision_cases(lib.rng_for(seed, ID, 650000 + i)))
+    # one FGQuery object: get(g), edit g IN PLACE, get(g) again (also with an equal-content object h asked in between)
+    for i in range(max(2, n // 4)):
+        cases.append(gen_edit_case(lib.rng_for(seed, ID, 670000 + i)))
     # small hetero rings in several writings with chain-pattern configurations (see c05.gen_ring_cases): the answer must
     # not depend on the writing-induced adjacency order beyond what the model says
     for i in range(max(2, n // 9)):
@@ -94,6 +100,19 @@ def gen_collision_cases(rng):
     return out
 
 
+def gen_edit_case(rng):
+    """the caller keeps ONE graph object, modifies it in place between two get() calls on ONE FGQuery (symbol / bond order
+    changes that keep node and edge counts, added / removed atoms and bonds): every answer must be the answer for the
+    contents the object has at that moment"""
+    c = c05.gen_case(rng, default_p=0.7)
+    if len(c["graph"]) == 0:
+        c = c05.gen_case(rng, default_p=0.7)
+    c["kind"] = "edit-in-place"
+    c["history"] = []
+    c["events"] = fc.rand_editseq(rng, c["graph"])
+    return c
+
+
 def gen_steps_case(rng):
     """configuration lists A and B with the same names (in the same order) but different patterns / group_atoms /
     anti-patterns, asked in ONE interpreter in the order A,B | A,B,A | B,A,B, each time on a fresh FGQuery built
@@ -125,6 +144,8 @@ def gen_steps_case(rng):
 
 
 def job_of(c):
+    if "events" in c:
+        return {"kind": "editseq", "specs": c["specs"], "req_h": c["req_h"], "graph": ct.graph_py(c["graph"]), "events": c["events"]}
     if "steps" in c:
         return {"kind": "steps", "steps": [{"specs": st["specs"], "req_h": st["req_h"], "via": st["via"],
                                             "graph": ct.graph_py(st["graph"])} for st in c["steps"]]}
@@ -172,6 +193,10 @@ def _corpus():
 
 
 def run_impl(c):
+    if "events" in c:
+        outs = fc.run_editseq(c["specs"], c["req_h"], c["graph"], c["events"])
+        c["_mutated"] = any(o[0] == "MUTATED" for o in outs)
+        return ("seq", [o[1] if o[0] == "MUTATED" else o for o in outs])
     if "steps" in c:
         outs, mutated = fc.run_steps(c["steps"])
         c["_mutated"] = mutated
@@ -204,6 +229,22 @@ def py_invariants(c, out):
     msgs = []
     if c.get("_mutated"):
         msgs.append("FGQuery.get modified the graph it was given")
+    if "events" in c:
+        mine = [fc.norm_answer(x) for x in out[1]]
+        snaps = [g for g, _ in fc.play(c["events"], c["graph"])]
+        # model-independent: a FRESH object asked about the contents the graph has at the last get()
+        fresh = fc.norm_answer(fc.run_query(c["specs"], c["req_h"], gens.copy_exact(snaps[-1]), repeats=1)[0])
+        if fresh != mine[-1]:
+            msgs.append("after the graph object was edited in place the same FGQuery answers %r, a fresh FGQuery answers %r"
+                        % (mine[-1], fresh))
+        ans = c.get("_seed_answers")
+        if ans is None:
+            ans = {s: fc.run_worker([job_of(c)], s)[0] for s in fc.SEEDS[:3]}
+        for s, r in ans.items():
+            if r["answers"] != mine and not msgs:
+                msgs.append("under PYTHONHASHSEED=%s the answers of the get/edit sequence are %r, under PYTHONHASHSEED=0 they are %r"
+                            % (s, r["answers"], mine))
+        return msgs[:2]
     if "steps" in c:
         mine = [fc.norm_answer(x) for x in out[1]]
         # model-independent: steps with the same (configuration, molecule, flag) must give the same answer, whatever
@@ -248,6 +289,19 @@ def py_invariants(c, out):
 
 
 def coq_case(c, out):
+    if "events" in c:
+        snaps = [g for g, _ in fc.play(c["events"], c["graph"])]
+        defs, parts, diag = {}, [], []
+        rq = ct.b(c["req_h"])
+        if c["specs"] is not None:
+            defs["cfgs"] = fc.cfgs_term(c["specs"])
+        for k, (g, o) in enumerate(zip(snaps, out[1])):
+            defs["g%d" % k] = ct.graph(g)
+            defs["out%d" % k] = fc.answer_term(o)
+            m = ("default_query_fast %s $g%d" % (rq, k)) if c["specs"] is None else ("query default_mapper $cfgs %s $g%d" % (rq, k))
+            parts.append("answer_agreeb (%s) $out%d" % (m, k))
+            diag.append(m)
+        return {"defs": defs, "checks": {"agree": " && ".join(parts), "history": "true"}, "diag": diag}
     if "steps" in c:
         defs, parts = {}, []
         for k, (st, o) in enumerate(zip(c["steps"], out[1])):
@@ -276,6 +330,10 @@ def coq_case(c, out):
 
 
 def describe(c):
+    if "events" in c:
+        d = c05.describe(c)
+        d["events"] = c["events"]
+        return d
     if "steps" in c:
         return {"kind": c["kind"], "steps": [{"specs": st["specs"], "req_h": st["req_h"], "via": st["via"],
                                               "graph": ct.graph_py(st["graph"])} for st in c["steps"]]}
@@ -285,6 +343,11 @@ def describe(c):
 
 
 def from_json(d):
+    if "events" in d:
+        c = c05.from_json(d)
+        c["events"] = d["events"]
+        c["history"] = []
+        return c
     if "steps" in d:
         steps = [{"specs": st["specs"], "req_h": st["req_h"], "via": st["via"], "graph": ct.graph_from_py(st["graph"])}
                  for st in d["steps"]]
@@ -297,25 +360,47 @@ def from_json(d):
 
 
 def describe_out(out):
+    if out[0] == "seq":
+        return {"status": "seq", "answers": [c05.describe_out(o) for o in out[1]]}
     if out[0] == "steps":
         return {"status": "steps", "answers": [c05.describe_out(o) for o in out[1]]}
     return c05.describe_out(out)
 
 
 def key(c):
+    if "events" in c:
+        return c05.key(c) + (json_dumps(c["events"]),)
     if "steps" in c:
         return ("steps",) + tuple((ct.graph_canon(st["graph"]), tuple(fc.spec_key(x) for x in st["specs"]), st["req_h"], st["via"])
                                   for st in c["steps"])
     return c05.key(c) + (tuple(ct.graph_canon(h) for h in c["history"]),)
 
 
+def json_dumps(x):
+    import json
+    return json.dumps(x, sort_keys=True)
+
+
 def nontrivial(c, out):
+    if out[0] == "seq":
+        return any(o[0] == "ok" and len(o[1]) > 0 for o in out[1])
     if out[0] == "steps":
         return any(o[0] == "ok" and len(o[1]) > 0 for o in out[1])
     return c05.nontrivial(c, out)
 
 
 def classes(c, out):
+    if out[0] == "seq":
+        yield "kind=edit-in-place"
+        yield "gets=%d" % len(out[1])
+        for ev in c["events"]:
+            if ev["op"] == "edit":
+                for e in ev["edits"]:
+                    yield "edit=" + e[0]
+        yield "config=" + ("default" if c["specs"] is None else "user")
+        for o in out[1]:
+            yield "result=" + o[0]
+        return
     if out[0] == "steps":
         yield "kind=same-names"
         yield "steps=%d" % len(c["steps"])
